@@ -299,7 +299,7 @@ def rec_concurrent(run, n):
     run._cur = dict(hmodule="conc", tmodule="ConcurrentTrace", cfg_tmpl=TRACE_CFG % "", replay_args=[], env=None)
     aborts = []
     for attempt in range(3):
-        p = run.hrun(["conc", "replay", gen, trace], timeout=3000)
+        p = run.hrun(["conc", "replay", gen, trace], timeout=10800)
         if p.returncode == 0:
             break
         if "fatal error:" not in p.stderr and "panic:" not in p.stderr:
@@ -459,7 +459,7 @@ def c05(run):
         raise Infra("conc gen failed: " + p.stderr[-2000:])
     trace = os.path.join(run.work, "cc_stress.trace.ndjson")
     run._cur = dict(hmodule="conc", tmodule="ConcurrentTrace", cfg_tmpl=TRACE_CFG % "", replay_args=[], env=None)
-    p = run.hrun(["conc", "replay", gen, trace], binary=race_bin, timeout=3000, env={"GORACE": "halt_on_error=0 exitcode=66"})
+    p = run.hrun(["conc", "replay", gen, trace], binary=race_bin, timeout=10800, env={"GORACE": "halt_on_error=0 exitcode=66"})
     races = p.stderr.count("WARNING: DATA RACE")
     run.cov["race_detector"] = dict(rounds=sum(1 for _ in open(gen)), reports=races, binary="go build -race")
     if races:
